@@ -607,6 +607,48 @@ def _sig_text(stmt_text: str) -> str:
     return hashlib.sha1(stmt_text.encode()).hexdigest()[:8]
 
 
+def all_tests(fn: ast.AST) -> List[str]:
+    """canonical text of every branch condition of fn (nested functions
+    included): if / elif / while / conditional expressions / comprehension
+    filters / assert"""
+    out = []
+    for n in ast.walk(fn):
+        if isinstance(n, (ast.If, ast.While, ast.IfExp)):
+            out.append(_abs(n.test, set()))
+        elif isinstance(n, ast.comprehension):
+            out += [_abs(c, set()) for c in n.ifs]
+        elif isinstance(n, ast.Assert):
+            out.append(_abs(n.test, set()))
+    return out
+
+
+# id(function node) -> canonical test texts the baseline function had; filled
+# for functions of modules that differ from the baseline (model.Repo._alpha).
+# A function of an unchanged module has no entry: it has no new tests.
+BASE_TESTS: Dict[int, Set[str]] = {}
+
+
+def register_base_tests(key: str, fn: ast.AST) -> None:
+    b = baseline().get(key) or {}
+    ts = set(b.get('t', []))
+    for n in ast.walk(fn):
+        if isinstance(n, (ast.FunctionDef, ast.AsyncFunctionDef)):
+            BASE_TESTS[id(n)] = ts
+
+
+def new_tests(fn: Optional[ast.AST]) -> Optional[Set[str]]:
+    """canonical texts of the tests of fn that its baseline version did not
+    have; None when fn belongs to an unchanged module (nothing is new)"""
+    if fn is None or id(fn) not in BASE_TESTS:
+        return None
+    base = BASE_TESTS[id(fn)]
+    return {t for t in all_tests(fn) if t not in base}
+
+
+def canon_test(e: ast.AST) -> str:
+    return _abs(e, set())
+
+
 def canonicalise_function(key: str, fn: ast.AST) -> int:
     b = baseline().get(key)
     if not b:
@@ -641,3 +683,636 @@ def stable_keys(funcs) -> Dict[str, str]:
         for k, f in enumerate(fs):
             out[f.qualname] = base if k == 0 else f'{base}#{k}'
     return out
+
+
+# ---------------------------------------------------------------------
+# extracted helpers
+#
+# "Extract function" is behaviour-preserving: a run of statements moves into
+# a fresh function and is replaced by a call.  The rules speak about the
+# function the statements used to be in, so a function the baseline tree did
+# not have, all of whose uses are plain calls in statement position inside
+# the same module, is inlined back at those calls (and dropped) before the
+# module is indexed.  Only the simple shape is undone -- no decorators, no
+# generator, no *args/**kwargs, at most one `return` and that as the last
+# statement; anything else keeps its spelling.  Inlined statements get
+# fractional line numbers after the call's line so that position-order
+# comparisons stay meaningful.
+
+def def_table(tree: ast.Module, modname: str):
+    """qualified name -> (def node, owning class node or None, container
+    list) for module-level functions and methods (classes nested in classes
+    included)"""
+    out = {}
+
+    def rec(body, prefix, cls):
+        for st in body:
+            if isinstance(st, (ast.FunctionDef, ast.AsyncFunctionDef)):
+                out.setdefault(f'{prefix}.{st.name}', (st, cls, body))
+            elif isinstance(st, ast.ClassDef):
+                rec(st.body, f'{prefix}.{st.name}', st)
+            elif isinstance(st, (ast.If, ast.Try)):
+                for f in ('body', 'orelse', 'finalbody'):
+                    rec(getattr(st, f, []) or [], prefix, cls)
+    rec(tree.body, modname, None)
+    return out
+
+
+def _own_nodes(fn):
+    """nodes of fn's own body, nested function bodies excluded"""
+    todo = list(fn.body)
+    while todo:
+        n = todo.pop()
+        yield n
+        if isinstance(n, (ast.FunctionDef, ast.AsyncFunctionDef, ast.Lambda,
+                          ast.ClassDef)):
+            continue
+        todo.extend(ast.iter_child_nodes(n))
+
+
+def _tail_returns_only(body) -> bool:
+    """every `return` of the block is in tail position (last statement, or
+    last statement of an if/else arm / with body in tail position)"""
+    if not body:
+        return True
+    for st in body[:-1]:
+        if any(isinstance(x, ast.Return) for x in _own_nodes_of(st)):
+            return False
+    last = body[-1]
+    if isinstance(last, ast.Return):
+        return True
+    if isinstance(last, ast.If):
+        return _tail_returns_only(last.body) and _tail_returns_only(
+            last.orelse)
+    if isinstance(last, (ast.With, ast.AsyncWith)):
+        return _tail_returns_only(last.body)
+    return not any(isinstance(x, ast.Return) for x in _own_nodes_of(last))
+
+
+def _own_nodes_of(st):
+    todo = [st]
+    while todo:
+        n = todo.pop()
+        yield n
+        if isinstance(n, (ast.FunctionDef, ast.AsyncFunctionDef, ast.Lambda,
+                          ast.ClassDef)) and n is not st:
+            continue
+        todo.extend(ast.iter_child_nodes(n))
+
+
+def _replace_tail_returns(body, make):
+    """rewrite the tail returns of a block with make(value-or-None) ->
+    list of statements; a tail position that falls through gets
+    make(None) appended"""
+    if not body:
+        return make(None)
+    last = body[-1]
+    if isinstance(last, ast.Return):
+        return body[:-1] + make(last.value)
+    if isinstance(last, ast.If) and any(
+            isinstance(x, ast.Return) for x in _own_nodes_of(last)):
+        last.body = _replace_tail_returns(last.body, make)
+        last.orelse = _replace_tail_returns(last.orelse, make)
+        return body
+    if isinstance(last, (ast.With, ast.AsyncWith)) and any(
+            isinstance(x, ast.Return) for x in _own_nodes_of(last)):
+        last.body = _replace_tail_returns(last.body, make)
+        return body
+    return body + make(None)
+
+
+def _is_plain_return(st) -> bool:
+    return isinstance(st, ast.Return) and (st.value is None or (
+        isinstance(st.value, ast.Constant) and st.value.value is None))
+
+
+def _fold_guards(body):
+    """`if c: return` + rest  ->  `if not c: rest` (value-less returns at
+    the top level of a helper's body only); returns a new statement list or
+    None when nothing was folded"""
+    for i, st in enumerate(body):
+        if isinstance(st, ast.If) and not st.orelse and len(st.body) == 1 \
+                and _is_plain_return(st.body[0]):
+            rest = body[i + 1:]
+            if not rest:
+                return body[:i] + [ast.copy_location(ast.Expr(
+                    value=st.test), st)]
+            folded = _fold_guards(rest) or rest
+            new = ast.copy_location(ast.If(test=_neg(st.test), body=folded,
+                                           orelse=[]), st)
+            return body[:i] + [new]
+    return None
+
+
+def _inlinable(h) -> bool:
+    if h.decorator_list:
+        if not all(isinstance(d, ast.Name) and d.id == 'staticmethod'
+                   for d in h.decorator_list):
+            return False
+    a = h.args
+    if a.vararg or a.kwarg:
+        return False
+    for d in list(a.defaults) + [d for d in a.kw_defaults if d is not None]:
+        if not isinstance(d, ast.Constant):
+            return False
+    rets = sum(1 for n in _own_nodes(h) if isinstance(n, ast.Return))
+    if rets > 1 or (rets == 1 and not isinstance(h.body[-1], ast.Return)):
+        # value-less guard returns fold into nested ifs when the helper
+        # yields nothing (or only None)
+        if all(_is_plain_return(n) for n in _own_nodes(h)
+               if isinstance(n, ast.Return)):
+            body = list(h.body)
+            if body and _is_plain_return(body[-1]):
+                body = body[:-1]
+            folded = _fold_guards(body)
+            if folded is not None:
+                h.body = folded or [ast.Pass()]
+    rets = 0
+    for n in _own_nodes(h):
+        if isinstance(n, (ast.Yield, ast.YieldFrom, ast.Global, ast.Nonlocal)):
+            return False
+        if isinstance(n, ast.Return):
+            rets += 1
+        if isinstance(n, ast.Name) and n.id == h.name:
+            return False
+    if rets and not _tail_returns_only(h.body):
+        return False
+    # nested functions / lambdas / comprehensions close over the helper's
+    # names; renaming through them is handled, but `nonlocal` is not
+    return True
+
+
+def _call_of(st, is_async):
+    """(call, form) when the statement is `h(..)`, `t = h(..)`,
+    `return h(..)` (each optionally awaited)"""
+    if isinstance(st, ast.Expr):
+        v, form = st.value, 'expr'
+    elif isinstance(st, ast.Assign) and len(st.targets) == 1:
+        v, form = st.value, 'assign'
+    elif isinstance(st, ast.AnnAssign) and st.value is not None:
+        v, form = st.value, 'assign'
+    elif isinstance(st, ast.Return) and st.value is not None:
+        v, form = st.value, 'return'
+    else:
+        return None, None
+    if isinstance(v, ast.Await):
+        if not is_async:
+            return None, None
+        v = v.value
+    elif is_async:
+        return None, None
+    if isinstance(v, ast.Call):
+        return v, form
+    return None, None
+
+
+def _simple_arg(e) -> bool:
+    while isinstance(e, ast.Attribute):
+        e = e.value
+    return isinstance(e, (ast.Name, ast.Constant))
+
+
+class _RenameAll(ast.NodeTransformer):
+    def __init__(self, mp, subst):
+        self.mp, self.subst = mp, subst
+
+    def visit_Name(self, node):
+        if node.id in self.subst and isinstance(node.ctx, ast.Load):
+            import copy
+            return copy.deepcopy(self.subst[node.id])
+        if node.id in self.mp:
+            node.id = self.mp[node.id]
+        return node
+
+    def visit_arg(self, node):
+        return node
+
+
+def _bind_args(h, call, bound_self):
+    """param name -> argument expression (None when it cannot be bound)"""
+    a = h.args
+    params = [x.arg for x in a.posonlyargs + a.args]
+    kwonly = [x.arg for x in a.kwonlyargs]
+    out = {}
+    pos = list(call.args)
+    if any(isinstance(x, ast.Starred) for x in pos) or any(
+            k.arg is None for k in call.keywords):
+        return None
+    if bound_self is not None:
+        if not params:
+            return None
+        out[params[0]] = bound_self
+        params = params[1:]
+    if len(pos) > len(params):
+        return None
+    for p, x in zip(params, pos):
+        out[p] = x
+    for k in call.keywords:
+        if k.arg in out or k.arg not in params + kwonly:
+            return None
+        out[k.arg] = k.value
+    nd = len(a.defaults)
+    allp = [x.arg for x in a.posonlyargs + a.args]
+    for p, d in zip(allp[len(allp) - nd:], a.defaults):
+        out.setdefault(p, d)
+    for p, d in zip(kwonly, a.kw_defaults):
+        if d is not None:
+            out.setdefault(p, d)
+    want = set(allp) | set(kwonly)
+    if set(out) != want:
+        return None
+    return out
+
+
+def _names_in(n) -> Set[str]:
+    return {x.id for x in ast.walk(n) if isinstance(x, ast.Name)}
+
+
+def _stored_in(n) -> Set[str]:
+    out = set()
+    for x in ast.walk(n):
+        if isinstance(x, ast.Name) and isinstance(x.ctx, (ast.Store,
+                                                           ast.Del)):
+            out.add(x.id)
+        elif isinstance(x, (ast.FunctionDef, ast.AsyncFunctionDef,
+                            ast.ClassDef)):
+            out.add(x.name)
+        elif isinstance(x, ast.ExceptHandler) and x.name:
+            out.add(x.name)
+        elif isinstance(x, ast.alias):
+            out.add((x.asname or x.name).split('.')[0])
+    return out
+
+
+def _setline(nodes, line):
+    for st in nodes:
+        for x in ast.walk(st):
+            if hasattr(x, 'lineno'):
+                x.lineno = line
+                x.end_lineno = line
+
+
+def _inline_at(caller, blk, i, h, call, form, bound_self, uid) -> bool:
+    import copy
+    st = blk[i]
+    binding = _bind_args(h, call, bound_self)
+    if binding is None:
+        return False
+    body = copy.deepcopy(h.body)
+    ret = None
+    multi = sum(1 for s_ in body for x in _own_nodes_of(s_)
+                if isinstance(x, ast.Return)) > 1 or (
+        body and not isinstance(body[-1], ast.Return) and any(
+            isinstance(x, ast.Return) for s_ in body
+            for x in _own_nodes_of(s_)))
+    if not multi and body and isinstance(body[-1], ast.Return):
+        ret = body.pop().value
+    h_params = list(binding)
+    h_stores = set()
+    for s in body:
+        h_stores |= _stored_in(s)
+    caller_names = _names_in(caller) | {
+        x.arg for x in ast.walk(caller) if isinstance(x, ast.arg)}
+    # loads of a caller name after the call (position-wise), or anywhere in
+    # an enclosing loop
+    line = st.lineno
+    later = set()
+    for x in ast.walk(caller):
+        if isinstance(x, ast.Name) and isinstance(x.ctx, ast.Load) and \
+                getattr(x, 'lineno', 0) > line:
+            later.add(x.id)
+    for x in ast.walk(caller):
+        if isinstance(x, (ast.For, ast.AsyncFor, ast.While)) and any(
+                y is st for y in ast.walk(x)):
+            later |= {y.id for y in ast.walk(x) if isinstance(y, ast.Name)
+                      and isinstance(y.ctx, ast.Load)}
+    nested = set()
+    for x in ast.walk(caller):
+        if x is not caller and isinstance(x, (ast.FunctionDef,
+                                              ast.AsyncFunctionDef,
+                                              ast.Lambda)):
+            nested |= _names_in(x)
+    # names the call statement itself binds (targets) are rebound right
+    # after the inlined body: not a collision
+    tgt_names = set()
+    if form == 'assign':
+        t = st.targets[0] if isinstance(st, ast.Assign) else st.target
+        tgt_names = {x.id for x in ast.walk(t) if isinstance(x, ast.Name)}
+    subst, rename, prelude = {}, {}, []
+    for p in h_params:
+        arg = binding[p]
+        if isinstance(arg, ast.Name) and arg.id == p:
+            if p in h_stores and p in later and p not in tgt_names:
+                # the helper rebinds its parameter; the caller's variable
+                # of the same name must keep its value
+                rename[p] = f'{p}__h{uid}'
+                prelude.append((rename[p], arg))
+            continue
+        if p not in h_stores and _simple_arg(arg) and not (
+                _names_in(arg) & h_stores):
+            subst[p] = arg
+            continue
+        new = p
+        if p in caller_names and (p in later or p in nested) \
+                and p not in tgt_names:
+            new = f'{p}__h{uid}'
+            rename[p] = new
+        prelude.append((new, arg))
+    for s in sorted(h_stores):
+        if s in binding:
+            continue
+        if s in caller_names and (s in later or s in nested) and \
+                s not in tgt_names:
+            rename[s] = f'{s}__h{uid}'
+    tr = _RenameAll(rename, subst)
+    body = [tr.visit(s) for s in body]
+    if ret is not None:
+        ret = tr.visit(ret)
+    out = [ast.Assign(targets=[ast.Name(id=n, ctx=ast.Store())],
+                      value=copy.deepcopy(a)) for n, a in prelude]
+    if multi:
+        tgt0 = None
+        if form == 'assign':
+            tgt0 = st.targets[0] if isinstance(st, ast.Assign) else st.target
+
+        def make(val):
+            if form == 'return':
+                return [ast.Return(value=val)]
+            if form == 'assign':
+                return [ast.Assign(
+                    targets=[copy.deepcopy(tgt0)],
+                    value=val if val is not None
+                    else ast.Constant(value=None))]
+            if val is None or all(isinstance(x, _PURE)
+                                  for x in ast.walk(val)):
+                return [ast.Pass()]
+            return [ast.Expr(value=val)]
+        out += _replace_tail_returns(body, make)
+        for k_, s_ in enumerate(out):
+            ast.fix_missing_locations(s_)
+            _setline([s_], line + (k_ + 1) * 1e-4)
+        blk[i:i + 1] = out
+        return True
+    out += body
+    if form == 'expr':
+        if ret is not None and not all(isinstance(x, _PURE + (ast.Tuple,))
+                                       for x in ast.walk(ret)):
+            out.append(ast.Expr(value=ret))
+    elif form == 'assign':
+        val = ret if ret is not None else ast.Constant(value=None)
+        tgt = st.targets[0] if isinstance(st, ast.Assign) else st.target
+        if not (_u(tgt) == _u(val)):
+            if isinstance(st, ast.Assign):
+                out.append(ast.Assign(targets=[tgt], value=val))
+            else:
+                out.append(ast.AnnAssign(target=tgt, annotation=st.annotation,
+                                         value=val, simple=st.simple))
+    else:
+        out.append(ast.Return(value=ret))
+    if not out:
+        out = [ast.Pass()]
+    for k, s in enumerate(out):
+        ast.fix_missing_locations(s)
+        _setline([s], line + (k + 1) * 1e-4)
+    blk[i:i + 1] = out
+    return True
+
+
+def undo_extractions(tree: ast.Module, modname: str, known: Set[str],
+                     other_sources=None, base_funcs=None) -> int:
+    """Inline functions that are not in `known` (the baseline's function
+    table of this module) at their call sites in this module."""
+    defs = def_table(tree, modname)
+    done = 0
+    if base_funcs is not None:
+        seen = set()
+        for q, (f, _c, _b) in defs.items():
+            if q in seen:
+                continue
+            seen.add(q)
+            done += unroll_new_table_loops(
+                f, (base_funcs.get(q) or {}).get('l', {}))
+    new = {q: v for q, v in defs.items() if q not in known}
+    if not new:
+        return done
+    uid = 0
+    # innermost helpers first (a helper extracted from a helper)
+    for q, (h, hcls, container) in sorted(
+            new.items(), key=lambda kv: -kv[1][0].lineno):
+        if not _inlinable(h):
+            continue
+        is_async = isinstance(h, ast.AsyncFunctionDef)
+        is_static = any(isinstance(d, ast.Name) and d.id == 'staticmethod'
+                        for d in h.decorator_list)
+        # every mention of the name in the module
+        sites, other = [], 0
+        call_funcs = set()
+        owners = [v[0] for qq, v in def_table(tree, modname).items()
+                  if v[0] is not h]
+        for caller in owners:
+            for _o, _f, blk in list(_blocks(caller)):
+                for st in blk:
+                    c, form = _call_of(st, is_async)
+                    if c is None:
+                        continue
+                    f = c.func
+                    if hcls is None and isinstance(f, ast.Name) and \
+                            f.id == h.name:
+                        sites.append((caller, blk, st, c, form, None))
+                        call_funcs.add(id(f))
+                    elif hcls is not None and isinstance(f, ast.Attribute) \
+                            and f.attr == h.name and isinstance(
+                                f.value, ast.Name) and f.value.id in (
+                                'self', 'cls', hcls.name):
+                        recv = None if (is_static or f.value.id == hcls.name
+                                        and is_static) else f.value
+                        if f.value.id == hcls.name and not is_static:
+                            continue
+                        sites.append((caller, blk, st, c, form, recv))
+                        call_funcs.add(id(f))
+        for x in ast.walk(tree):
+            if isinstance(x, ast.Name) and x.id == h.name and \
+                    id(x) not in call_funcs and hcls is None:
+                other += 1
+            elif isinstance(x, ast.Attribute) and x.attr == h.name and \
+                    id(x) not in call_funcs:
+                other += 1
+        if not sites:
+            continue
+        # nested-function callers: the block walk above reaches them through
+        # their top-level owner; a site is attributed to the innermost def
+        ok_all = True
+        for caller, blk, st, c, form, recv in sites:
+            inner = caller
+            for x in ast.walk(caller):
+                if isinstance(x, (ast.FunctionDef, ast.AsyncFunctionDef)) \
+                        and x is not caller and any(
+                            y is st for y in ast.walk(x)):
+                    inner = x
+            try:
+                i = next(k for k, s in enumerate(blk) if s is st)
+            except StopIteration:
+                ok_all = False
+                continue
+            uid += 1
+            if _inline_at(inner, blk, i, h, c, form, recv, uid):
+                done += 1
+                renumber(caller)
+            else:
+                ok_all = False
+        if ok_all and other == 0 and not (other_sources and any(
+                h.name in s for s in other_sources)):
+            try:
+                container.remove(h)
+                if not container:
+                    container.append(ast.Pass())
+            except ValueError:
+                pass
+    return done
+
+
+# ---------------------------------------------------------------------
+# position renumbering and table-driven loops
+
+def renumber(fn: ast.AST) -> None:
+    """After statements were moved into fn from elsewhere, give every
+    statement a strictly increasing (fractional) line number inside fn's
+    own line range, in source order; expressions take their statement's
+    number.  Reports show the approximate line; order comparisons stay
+    exact."""
+    order: List[ast.stmt] = []
+
+    def rec(body):
+        for st in body:
+            order.append(st)
+            for f in ('body', 'orelse', 'finalbody'):
+                b = getattr(st, f, None)
+                if isinstance(b, list) and b and isinstance(b[0], ast.stmt):
+                    rec(b)
+            for h in getattr(st, 'handlers', []) or []:
+                order.append(h)
+                rec(h.body)
+            for c in getattr(st, 'cases', []) or []:
+                rec(c.body)
+    rec(fn.body)
+    lo = float(getattr(fn, 'lineno', 1))
+    hi = float(max(getattr(fn, 'end_lineno', lo) or lo, lo + 1))
+    n = len(order)
+    num = {}
+    for i, st in enumerate(order):
+        num[id(st)] = round(lo + (i + 1) * (hi - lo) / (n + 1), 5)
+
+    def paint(node, line):
+        for ch in ast.iter_child_nodes(node):
+            if id(ch) in num:
+                continue
+            if isinstance(ch, list):
+                continue
+            if hasattr(ch, 'lineno') or isinstance(ch, (ast.expr, ast.arg,
+                                                         ast.keyword)):
+                try:
+                    ch.lineno = line
+                    ch.end_lineno = line
+                except Exception:
+                    pass
+            paint(ch, line)
+    for st in order:
+        ln = num[id(st)]
+        st.lineno = ln
+        paint(st, ln)
+    # end of a compound statement = last statement inside it
+    for st in reversed(order):
+        last = st.lineno
+        for ch in ast.walk(st):
+            if id(ch) in num and num[id(ch)] > last:
+                last = num[id(ch)]
+        st.end_lineno = last
+
+
+def _loose_jump(st) -> bool:
+    def rec(n, inloop):
+        if isinstance(n, (ast.Break, ast.Continue)) and not inloop:
+            return True
+        if isinstance(n, (ast.FunctionDef, ast.AsyncFunctionDef, ast.Lambda)):
+            return False
+        il = inloop or isinstance(n, (ast.For, ast.AsyncFor, ast.While))
+        return any(rec(c, il) for c in ast.iter_child_nodes(n))
+    return any(rec(c, False) for c in st)
+
+
+def unroll_new_table_loops(fn: ast.AST, base_locals) -> int:
+    """`for a, b in ((x1, y1), (x2, y2)): body` over a literal table of
+    simple expressions (names, attribute chains, constants), when the
+    baseline function had no such loop, becomes one copy of the body per
+    row with the row substituted.  Reading a name or an attribute has no
+    effect, so evaluating the row at its uses instead of up front is the
+    same program provided the body does not rebind what a row mentions."""
+    import copy
+    names, _ = scope_locals(fn)
+    had = set()
+    for fps in (base_locals or {}).values():
+        for fp in fps:
+            if fp.startswith('for'):
+                had.add(fp.split(':', 1)[1])
+    k = 0
+    for _o, _f, blk in list(_blocks(fn)):
+        i = 0
+        while i < len(blk):
+            st = blk[i]
+            i += 1
+            if not (isinstance(st, ast.For) and not st.orelse and
+                    isinstance(st.iter, (ast.Tuple, ast.List)) and
+                    st.iter.elts):
+                continue
+            if _abs(st.iter, names) in had:
+                continue
+            tg = st.target
+            tnames = [t.id for t in (tg.elts if isinstance(
+                tg, (ast.Tuple, ast.List)) else [tg])
+                if isinstance(t, ast.Name)]
+            arity = len(tg.elts) if isinstance(tg, (ast.Tuple, ast.List)) \
+                else 0
+            if len(tnames) != max(arity, 1):
+                continue
+            rows = []
+            for e in st.iter.elts:
+                if arity:
+                    if not (isinstance(e, (ast.Tuple, ast.List)) and
+                            len(e.elts) == arity):
+                        rows = None
+                        break
+                    row = list(e.elts)
+                else:
+                    row = [e]
+                if not all(_simple_arg(x) for x in row):
+                    rows = None
+                    break
+                rows.append(row)
+            if not rows or _loose_jump(st.body):
+                continue
+            stored = set()
+            for s in st.body:
+                stored |= _stored_in(s)
+            mentioned = set()
+            for row in rows:
+                for x in row:
+                    mentioned |= _names_in(x)
+            if stored & (set(tnames) | mentioned):
+                continue
+            # the loop variables must not be read after the loop
+            after = {x.id for x in ast.walk(fn) if isinstance(x, ast.Name)
+                     and isinstance(x.ctx, ast.Load)
+                     and getattr(x, 'lineno', 0) > (st.end_lineno or
+                                                    st.lineno)}
+            if after & set(tnames):
+                continue
+            out = []
+            for row in rows:
+                tr = _RenameAll({}, dict(zip(tnames, row)))
+                out += [tr.visit(copy.deepcopy(s)) for s in st.body]
+            blk[i - 1:i] = out
+            i += len(out) - 1
+            k += 1
+    if k:
+        renumber(fn)
+    return k
